@@ -201,6 +201,14 @@ def removal_vars(fn):
                             break
                         par = getattr(par, "_parent", None)
                     out.add(nm)
+    # a removal variable that is a plain copy of another local (the key found by a scan and
+    # handed over under another name): both name the key that is removed
+    for _ in range(3):
+        for a in ast.walk(fn):
+            if isinstance(a, ast.Assign) and len(a.targets) == 1 \
+                    and isinstance(a.targets[0], ast.Name) and a.targets[0].id in out \
+                    and isinstance(a.value, ast.Name):
+                out.add(a.value.id)
     return out
 
 
